@@ -97,6 +97,29 @@ def judge_twin(name, seed, seq, fresh_envs=True):
         if outs[0] != outs[2]:
             which = [n for n, x, y in zip(('state', 'observation', 'reward', 'done'), outs[0], outs[2]) if x != y]
             return f'debug flag off changes the trajectory at operation {i} ({op} {a or ""}): {which} differ'
+    # sparse reads: the observation is read only at the very end (eager observation generation in one of the variants
+    # would shift the random stream of the dynamics)
+    if fresh_envs:
+        e1, e3 = envs.fresh(name, seed), None
+        reset_gv_debug(False)
+        e3 = envs.fresh(name, seed)
+        reset_gv_debug(True)
+    else:
+        e1, e3 = envs.slot(name, 1, seed), envs.slot(name, 3, seed, debug=False)
+    trail = []
+    for j, e in enumerate((e1, e3)):
+        reset_gv_debug(j == 0)
+        e.reset()
+        t = [sdesc(e.state)]
+        for a in seq:
+            r, d = e.step(Action[a])
+            t.append((sdesc(e.state), float(r), bool(d)))
+        t.append(sdesc(e.observation))
+        reset_gv_debug(True)
+        trail.append(t)
+    if trail[0] != trail[1]:
+        k = next(i for i, (x, y) in enumerate(zip(*trail)) if x != y)
+        return f'with observations read only at the end, debug flag off changes the trajectory at operation {k}'
     return None
 
 
